@@ -317,6 +317,27 @@ Definition reportable (e : edit) (s : schema) : Prop :=
   | _ => True
   end.
 
+(* the open finding "safe-retype-unreported", as a predicate: the edit retypes
+   an existing field / argument / input field / directive argument to a
+   different type that the differ's own predicate calls a safe change *)
+Definition safe_retype (e : edit) (s : schema) : Prop :=
+  match e with
+  | ERetypeField tn fn t =>
+      exists fs f, user_fields s tn = Some fs /\ find_field fs fn = Some f /\ f_type f <> t
+                   /\ DifferModel.safe_out (f_type f) t = true
+  | ERetypeArg tn fn an t =>
+      exists fs f a, user_fields s tn = Some fs /\ find_field fs fn = Some f
+                     /\ find_arg (f_args f) an = Some a /\ a_type a <> t
+                     /\ DifferModel.safe_in (a_type a) t = true
+  | ERetypeInputField tn fn t =>
+      exists fs f, user_body s tn = Some (BInput fs) /\ find_input fs fn = Some f /\ i_type f <> t
+                   /\ DifferModel.safe_in (i_type f) t = true
+  | ERetypeDirArg dn an t =>
+      exists d a, user_dir s dn = Some d /\ find_arg (d_args d) an = Some a /\ a_type a <> t
+                  /\ DifferModel.safe_in (a_type a) t = true
+  | _ => False
+  end.
+
 (* ------------------------------------------------------- 3. client operations *)
 (* The core of "operation valid against a schema" that depends on the schema:
    FieldsOnCorrectType, KnownArgumentNames, ProvidedRequiredArguments,
